@@ -629,6 +629,14 @@ hnd_generic(coap_resource_t *resource, coap_session_t *session, const coap_pdu_t
       body = rc->stored;
       blen = rc->stored_len;
       break;
+    case 6:
+      owned = (uint8_t *)malloc(rc->gen_len + 24);
+      memset(owned, '.', rc->gen_len + 24);
+      i = snprintf((char *)owned, 24, "%ld", rc->counter);
+      owned[i] = '.';
+      body = owned;
+      blen = rc->gen_len;
+      break;
     default:
       break;
     }
@@ -650,7 +658,8 @@ hnd_generic(coap_resource_t *resource, coap_session_t *session, const coap_pdu_t
          * per call, which makes every re-run of the handler look like a changed resource) */
         r = coap_add_data_large_response(resource, session, request, response, query,
                                          COAP_MEDIATYPE_APPLICATION_OCTET_STREAM, rc->maxage,
-                                         rc->body_kind == 3 ? (uint64_t)rc->gen_seed + 1 : 0,
+                                         rc->body_kind == 3 ? (uint64_t)rc->gen_seed + 1 :
+                                         rc->body_kind == 6 ? (uint64_t)rc->counter + 1 : 0,
                                          blen, b->data, released_body, b);
         if (!r) {
           ev_begin("largersp_fail");
@@ -984,6 +993,11 @@ fill_rcfg(rcfg_t *rc) {
       rc->gen_seed = (uint32_t)strtoul(strchr(v + 4, ':') ? strchr(v + 4, ':') + 1 : "1", NULL, 10);
     } else if (!strcmp(v, "counter"))
       rc->body_kind = 4;
+    else if (!strncmp(v, "cpad:", 5)) {
+      /* the counter, padded with '.' to a fixed length: a state that changes and is large */
+      rc->body_kind = 6;
+      rc->gen_len = (size_t)strtoul(v + 5, NULL, 10);
+    }
     else if (!strcmp(v, "stored"))
       rc->body_kind = 5;
   }
